@@ -154,8 +154,11 @@ func (x *c18Rig) pending(ch *c18Handler) int {
 // finish drains every live handler and applies the oracle.
 func (x *c18Rig) finish(fail func(cause map[string]string, format string, args ...any)) {
 	vSettle(50 * time.Millisecond)
+	// ground truth: the topic's membership table, read inside the event loop (Topic.ListPeers shows only those members the
+	// node currently has an outbound queue for: a member whose own stream is up while the node's stream to it is down is
+	// a member all the same, and no leave has been notified for it)
 	members := map[peer.ID]bool{}
-	for _, p := range x.tp.ListPeers() {
+	for p := range x.r.nd.Snap().Topics["t"] {
 		members[p] = true
 	}
 	for hi, ch := range x.hs {
@@ -332,8 +335,25 @@ func TestVerifC18Rand(t *testing.T) {
 			bgCtx, bgCancel := context.WithCancel(context.Background())
 			for op := 0; op < nOps && !c.Violated(); op++ {
 				i := c.Intn(nP)
-				opk := c.Intn(14)
+				opk := c.Intn(15)
 				switch opk {
+				case 14:
+					// the node's stream to a member goes down and cannot be re-opened while the member's own stream (and with it
+					// its membership) stays: a handler created now still has to start from the full peer set
+					if x.att[i] {
+						x.pups[i].Unhandle()
+						x.pups[i].CloseIn(x.r.nd.ID(), true)
+						vSettle(time.Duration(c.Range(0, 400)) * time.Millisecond)
+						hist = append(hist, fmt.Sprintf("outbound_down(p%d)", i+1))
+						if len(x.hs) < 3 && c.Chance(0.7) {
+							x.newHandler()
+							vSettle(5 * time.Millisecond)
+							hist = append(hist, fmt.Sprintf("newHandler#%d", len(x.hs)-1))
+						}
+						if c.Chance(0.5) {
+							x.pups[i].Rehandle()
+						}
+					}
 				case 13:
 					// a handler created while subscription changes of several peers are on their way to the event loop
 					if len(x.hs) < 3 {
